@@ -249,6 +249,21 @@ func runC05(in sx.SX) (sx.SX, string) {
 			if sx.Text(got) != sx.Text(want) && fail == "" {
 				fail = fmt.Sprintf("step %d (%s): the reused instance observed %s, a fresh instance %s", i, sx.Quote(text), sx.Text(got), sx.Text(want))
 			}
+			// TokenizeBuffer on the reused instance (whatever the calls above left behind) against a fresh one
+			if fail == "" {
+				show := func(ts []*tokenizers.Token) string {
+					var sb strings.Builder
+					for _, k := range ts {
+						fmt.Fprintf(&sb, "(%d %s)", k.Type(), sx.Quote(k.Value()))
+					}
+					return sb.String()
+				}
+				f2 := newTokenizer(kind, l[2])
+				setOptions(f2, bits)
+				if a, b := show(t.TokenizeBuffer(text)), show(f2.TokenizeBuffer(text)); a != b {
+					fail = fmt.Sprintf("step %d: TokenizeBuffer(%s) on the reused instance gave %s, on a fresh instance %s", i, sx.Quote(text), a, b)
+				}
+			}
 			out = append(out, got)
 		}
 		return out, fail
@@ -277,6 +292,28 @@ func runC05(in sx.SX) (sx.SX, string) {
 		}
 		if sx.Text(obs) != sx.Text(want) && fail == "" {
 			fail = fmt.Sprintf("expression %d (%s): the reused parser gave %s, a fresh parser %s", i, sx.Quote(text), sx.Text(obs), sx.Text(want))
+		}
+		// the same through ParseTokens followed by ParseString of the composed text
+		if toks := fp.OriginalTokens(); len(toks) > 0 && fail == "" {
+			p.ParseTokens(toks)
+			composed := p.Expression()
+			var o1, o2 sx.SX
+			if err := p.ParseString(composed); err != nil {
+				code, _ := errCode(err)
+				o1 = sx.L(sx.I(code))
+			} else {
+				o1 = renderRPN(p)
+			}
+			f2 := parsers.NewExpressionParser()
+			if err := f2.ParseString(composed); err != nil {
+				code, _ := errCode(err)
+				o2 = sx.L(sx.I(code))
+			} else {
+				o2 = renderRPN(f2)
+			}
+			if sx.Text(o1) != sx.Text(o2) {
+				fail = fmt.Sprintf("expression %d: ParseTokens then ParseString(%s) on the reused parser gave %s, a fresh parser %s", i, sx.Quote(composed), sx.Text(o1), sx.Text(o2))
+			}
 		}
 		out = append(out, obs)
 		// the calculator under the same explicit variable values
